@@ -953,6 +953,9 @@ func (s *subscriptionState) done() {
 func (s *subscriptionState) complete() {
 	s.writeMu.Lock()
 	defer s.writeMu.Unlock()
+	if s.removed.Load() {
+		return
+	}
 	s.writer.Complete()
 }
 
@@ -961,6 +964,9 @@ func (s *subscriptionState) complete() {
 func (s *subscriptionState) error(data []byte) {
 	s.writeMu.Lock()
 	defer s.writeMu.Unlock()
+	if s.removed.Load() {
+		return
+	}
 	s.writer.Error(data)
 }
 
